@@ -116,6 +116,9 @@ def bounded(tier, seed):
         [("a", None, None, b"12345"), ("b", None, None, b"")],
         [("a", None, None, b"12"), ("f", "x.bin", "application/octet-stream", b"0123456789" * 3), ("c", None, None, b"345")],
         [("f", "x.bin", "application/octet-stream", b"\r\n--bn\r\nzz"), ("g", "y.bin", None, b"")],
+        # a file part whose filename is EMPTY (what a browser sends for an empty file input) is still a file part: its bytes do
+        # not count as field data
+        [("a", None, None, b"12"), ("f", "", "application/octet-stream", b"0123456789" * 3)],
     ]
     for parts in forms:
         n = len(parts)
